@@ -13,14 +13,14 @@ open TraceContext
 def isSampled (f : UInt8) : Bool := f &&& UInt8.ofNat Gen.kIsSampled != 0
 
 /-- `TraceFlagsFromHex`: `length() != 1 || (s[0] != '1' && s[0] != 'd')` → 0, else `kIsSampled` -/
-def traceFlagsFromHex (f : Bytes) : Res UInt8 :=
+def traceFlagsFromHex (f : Bytes) : IxRes UInt8 :=
   if f.length ≠ 1 then .ok 0
   else (Idx.rd f 0).bind fun c =>
     if c ≠ Gen.b3SampledChar && c ≠ Gen.b3DebugChar then .ok 0 else .ok (UInt8.ofNat Gen.kIsSampled)
 
 /-- the three fields `ExtractImpl` works on; `none` = `SplitString(...) < 2` → `GetInvalid()`.
     `fields` is a value-initialised `std::array<string_view, 3>`: entries not filled by `SplitString` are empty. -/
-def fields (b3 tid sid smp : Bytes) : Res (Option (Bytes × Bytes × Bytes)) :=
+def fields (b3 tid sid smp : Bytes) : IxRes (Option (Bytes × Bytes × Bytes)) :=
   if !b3.isEmpty then
     (Idx.splitString b3 Gen.b3Sep Gen.b3FieldCount).bind fun fs =>
       if fs.length < Gen.b3MinFields then .ok none else .ok (some (fs.getD 0 [], fs.getD 1 [], fs.getD 2 []))
@@ -28,7 +28,7 @@ def fields (b3 tid sid smp : Bytes) : Res (Option (Bytes × Bytes × Bytes)) :=
 
 /-- `ExtractImpl`: `none` = `SpanContext::GetInvalid()`.  `TraceIdFromHex` / `SpanIdFromHex` ignore the return value of
     `HexToBinary` (an over-long string leaves the zeroed buffer, i.e. the invalid id). -/
-def extractImpl (b3 tid sid smp : Bytes) : Res (Option SpanCtx) :=
+def extractImpl (b3 tid sid smp : Bytes) : IxRes (Option SpanCtx) :=
   (fields b3 tid sid smp).bind fun
     | none => .ok none
     | some (th, sh, fh) =>
@@ -41,7 +41,7 @@ def extractImpl (b3 tid sid smp : Bytes) : Res (Option SpanCtx) :=
             .ok (some { traceId := rt.2, spanId := rs.2, flags := fl, remote := true, traceState := [] })
 
 /-- `Extract`: `ok none` = the caller's context is returned unchanged; `ok (some sc)` = `SetSpan(context, DefaultSpan(sc))` -/
-def extract (b3 tid sid smp : Bytes) : Res (Option SpanCtx) :=
+def extract (b3 tid sid smp : Bytes) : IxRes (Option SpanCtx) :=
   (extractImpl b3 tid sid smp).map fun o => o.filter SpanCtx.isValid
 
 /-- `B3Propagator::Inject`: the value of the `b3` header; `none` = nothing is set (invalid span context) -/
@@ -79,7 +79,7 @@ def inject (sc : SpanCtx) : Option Bytes :=
 def getTraceFlags (jaegerFlags : UInt8) : UInt8 := jaegerFlags &&& UInt8.ofNat Gen.jaegerIsSampled
 
 /-- `ExtractImpl`: unlike B3 the ids are *not* checked here; `Extract` checks `IsValid()` -/
-def extractImpl (h : Bytes) : Res (Option SpanCtx) :=
+def extractImpl (h : Bytes) : IxRes (Option SpanCtx) :=
   (Idx.splitString h Gen.jaegerSep Gen.jaegerFieldCount).bind fun fs =>
     if fs.length ≠ Gen.jaegerFieldCount then .ok none
     else
@@ -95,7 +95,7 @@ def extractImpl (h : Bytes) : Res (Option SpanCtx) :=
           | [fl] => .ok (some { traceId := rt.2, spanId := rs.2, flags := getTraceFlags fl, remote := true, traceState := [] })
           | _ => .fault .oob
 
-def extract (h : Bytes) : Res (Option SpanCtx) :=
+def extract (h : Bytes) : IxRes (Option SpanCtx) :=
   (extractImpl h).map fun o => o.filter SpanCtx.isValid
 
 end Jaeger
